@@ -49,6 +49,9 @@ function loadPackage (repo) {
   return require(path.join(repo, 'main.js'))
 }
 
+// frames of the files under test (not the harness caller, not node internals)
+function isMine (p) { return p.startsWith('/w/') || /(^|\/)(one\.js|two\.js|orig\.ts|a\.ts|b\.ts|only\.ts)$/.test(p) }
+
 function frameOfLine (line) {
   // "(path:line:col)" or "at path:line:col"; an eval frame is located by its eval origin
   const ev = /eval at [^(]*\(((?:[A-Za-z]:)?[^():]+):(\d+):(\d+)\)/.exec(line)
@@ -62,7 +65,7 @@ function framesOf (stackString) {
   const lines = String(stackString).split('\n').filter((l) => /^\s*at /.test(l))
   if (!lines.length) return [{ raw: String(stackString) }]
   const all = lines.map(frameOfLine)
-  const mine = all.filter((f) => typeof f.path === 'string' && f.path.startsWith('/w/'))
+  const mine = all.filter((f) => typeof f.path === 'string' && isMine(f.path))
   return mine.length ? mine : [all[0]]
 }
 
@@ -138,7 +141,7 @@ function runJob (job) {
               // string path: every frame of the formatted stack, eval frames by their origin
               if (mode === 'handler') {
                 // (a stack whose only link to the file is an eval origin has no such frame: nothing to report here)
-                got = (structured || []).filter((f) => typeof f.path === 'string' && f.path.startsWith('/w/'))
+                got = (structured || []).filter((f) => typeof f.path === 'string' && isMine(f.path))
                 if (!structured) got = [{ raw: String(s) }]
               } else {
                 got = framesOf(s)
